@@ -10,6 +10,20 @@ COMMON_ASSUMPTIONS = [
 ]
 
 PROPERTIES = {
+    "C01": {
+        "level": "model_checking",
+        "quick": [{"match": "VerifH_c01_.*", "timeout": 600, "shards": {"VerifH_c01_readloop": 3},
+                   "allow_unsupported": ["non-ASCII byte"]}],
+        "thorough": [{"match": "VerifH_c01_.*", "timeout": 2400, "shards": {"VerifH_c01_readloop": 6},
+                      "allow_unsupported": ["non-ASCII byte"]}],
+        "bounds": {}, "outside": [], "assumptions": [],
+    },
+    "C13": {
+        "level": "model_checking",
+        "quick": [{"match": "VerifH_c13_.*", "timeout": 600, "allow_unsupported": ["ParseFloat of symbolic text"]}],
+        "thorough": [{"match": "VerifH_c13_.*", "timeout": 2400, "allow_unsupported": ["ParseFloat of symbolic text"]}],
+        "bounds": {}, "outside": [], "assumptions": [],
+    },
     "C02": {
         "level": "model_checking",
         "quick": [{"match": "VerifH_c02_.*", "timeout": 300}],
